@@ -840,3 +840,74 @@ example : (finalisingTrafficRouting { exCtx with grace := 0 } exRouted Mem.empty
     ["unpinStable", "deleteCanaryIngress", "deleteCanarySvc"] := by decide
 
 end RV.Props.Traffic
+
+/-! ## C07 — a retry is a wake-up that comes -/
+
+namespace RV.Props.Traffic
+open RV.Traffic RV.Oracle.Traffic
+
+/-- `runWithGraceSeconds` asks for another round only when a grace period is configured -/
+theorem runGrace_retry_pos (g : Nat) (e : Exp) (md : Bool) (h : (runGrace g e md).2 = true) : g > 0 := by
+  unfold runGrace at h
+  split at h
+  · cases h
+  · omega
+
+/-- **C07** — every retry-style Manager call (`PatchStableService`, `RestoreStableService`, `RestoreGateway`,
+    `RemoveCanaryService`, `RouteAllTrafficToNewVersion`) that says "retry" without an error was configured with a
+    positive grace period: with `gracePeriodSeconds: 0` ("no need to wait") no call ever asks to be re-run, so the
+    reconciler never waits for a recheck whose duration is zero.  Every context, network state and memory. -/
+theorem retry_needs_grace (call : String) (f : TCtx → Net → Mem → TOut) (c : TCtx) (n : Net) (m : Mem)
+    (hf : (call = "patchStableService" ∧ f = patchStableService) ∨ (call = "restoreStableService" ∧ f = restoreStableService) ∨
+          (call = "restoreGateway" ∧ f = restoreGateway) ∨ (call = "removeCanaryService" ∧ f = removeCanaryService) ∨
+          (call = "routeAllToNew" ∧ f = routeAllToNew))
+    (hd : (f c n m).done = true) (he : (f c n m).err = false) : c.grace > 0 := by
+  rcases Nat.eq_zero_or_pos c.grace with hg | hg
+  · exfalso
+    rcases hf with ⟨_, rfl⟩ | ⟨_, rfl⟩ | ⟨_, rfl⟩ | ⟨_, rfl⟩ | ⟨_, rfl⟩
+    · by_cases h1 : c.hasRef = true <;> by_cases h2 : c.disableGen = true <;> by_cases h3 : n.stableExists = true <;>
+        simp [patchStableService, runGrace, hg, h1, h2, h3] at hd he
+    · by_cases h1 : c.hasRef = true <;> by_cases h3 : n.stableExists = true <;>
+        simp [restoreStableService, runGrace, hg, h1, h3] at hd
+    · by_cases h1 : c.hasRef = true <;> simp [restoreGateway, runGrace, hg, h1] at hd
+    · by_cases h1 : c.hasRef = true <;> by_cases h2 : c.disableGen = true <;>
+        simp [removeCanaryService, runGrace, hg, h1, h2] at hd
+    · by_cases h1 : c.hasRef = true <;> by_cases h2 : (ensureRoutes n 100).2.2 = true <;>
+        simp [routeAllToNew, runGrace, hg, h1, h2] at hd he
+  · exact hg
+
+/-- the same for `FinalisingTrafficRouting`: "not done" without an error means one of its three parts asked for
+    a retry, which needs a positive grace period -/
+theorem finalising_wait_needs_grace (c : TCtx) (n : Net) (m : Mem) (href : c.hasRef = true)
+    (hd : (finalisingTrafficRouting c n m).done = false) (he : (finalisingTrafficRouting c n m).err = false) : c.grace > 0 := by
+  unfold finalisingTrafficRouting at hd he
+  simp only [href, not_true_eq_false, if_false] at hd he
+  by_cases h1 : (restoreStableService c n m).err = true ∨ (restoreStableService c n m).done = true
+  · simp only [h1, if_true] at he
+    rcases h1 with h1 | h1
+    · rw [h1] at he; cases he
+    · exact retry_needs_grace "restoreStableService" _ c n m (Or.inr (Or.inl ⟨rfl, rfl⟩)) h1 he
+  · simp only [h1, if_false] at hd he
+    by_cases h2 : (restoreGateway c (restoreStableService c n m).net (restoreStableService c n m).mem).err = true ∨
+        (restoreGateway c (restoreStableService c n m).net (restoreStableService c n m).mem).done = true
+    · simp only [h2, if_true] at he
+      rcases h2 with h2 | h2
+      · rw [h2] at he; cases he
+      · exact retry_needs_grace "restoreGateway" _ c _ _ (Or.inr (Or.inr (Or.inl ⟨rfl, rfl⟩))) h2 he
+    · simp only [h2, if_false] at hd he
+      by_cases h3 : (removeCanaryService c (restoreGateway c (restoreStableService c n m).net (restoreStableService c n m).mem).net
+          (restoreGateway c (restoreStableService c n m).net (restoreStableService c n m).mem).mem).err = true ∨
+          (removeCanaryService c (restoreGateway c (restoreStableService c n m).net (restoreStableService c n m).mem).net
+          (restoreGateway c (restoreStableService c n m).net (restoreStableService c n m).mem).mem).done = true
+      · simp only [h3, if_true] at he
+        rcases h3 with h3 | h3
+        · rw [h3] at he; cases he
+        · exact retry_needs_grace "removeCanaryService" _ c _ _ (Or.inr (Or.inr (Or.inr (Or.inl ⟨rfl, rfl⟩)))) h3 he
+      · simp only [h3, if_false] at hd
+        cases hd
+
+/-- non-vacuity: a configured grace period and a Service that has to be re-selected do give a retry -/
+example : (patchStableService ⟨true, 3, some 20, false, "v1", "v2", Age.none, true⟩ ⟨true, none, none, true, none⟩ Mem.empty).done = true := by
+  decide
+
+end RV.Props.Traffic
